@@ -6,12 +6,16 @@ props = [json.loads(l)['id'] for l in open(os.path.join(V, 'properties.jsonl'))]
 COMMON_NOTE = ("Trusted: Lean 4.33.0 kernel (axioms propext, Quot.sound, Classical.choice only; audited on every run), the hand-written "
                "model named in DESIGN.md, and the sampled correspondence between that model and /repo's working tree.")
 CLAIMS = {
+ "C20": ("proof", "Lean 4 theorems over the state-machine model of global_control (library-owned control + client controls): after set_global_tbb_concurrency(n) the active value is n for every call history, it bounds the parallelism from above in the presence of client controls, and the demos' option block applies --cores whenever parallel is selected, independent of verbose. Correspondence: real call sequences compared with tbb::global_control::active_value and with the number of distinct threads executing a parallel region; demos run under strace counting created threads for --cores n x verbose x unrelated flags.",
+         "Lean 4 proof (state machine) + correspondence with active_value and thread counts", "§5 C20"),
  "C17": ("proof", "Lean 4 theorems over the literal model of SpVecGF2 for every operation history (canonical form, refinement to the dense GF(2) computation, size/product/sum laws); model tied to spvecgf2.hpp by differential replay of generated and exhaustive-short histories on the real class; an independent dense oracle decides the property on the implementation.",
          "Lean 4 proof (induction over histories, refinement to dense spec) + correspondence check", "§5 C17"),
  "C01": ("proof", "Lean 4 theorems: for every simple positive graph, every ForestIndex (any unordered_set order), every variant's literal support bookkeeping and every choice of per-phase minimum odd cycles (relational model FullRun), the emitted cycles number m-n+c, are circuits (simple cycles), independent over GF(2) and span the cycle space (abstract de Pina theory, fully proved, instantiated on the literal model). The C++ is tied to the model by trace validation of every run: each emitted cycle must satisfy the phase contract against the model's support vector (per-phase optimum from the model's signed-graph distances, and from a definitional 2^m enumeration when m<=11), plus an independent python oracle (simple cycles, GF(2) rank).",
          "Lean 4 proof (de Pina triangular/exchange argument, refinement of the literal bookkeeping) + trace validation against the implementation", "§5 C01"),
  "C02": ("proof", "Lean 4 theorems: under the same relational model the emitted basis is a minimum cycle basis (no heavier than ANY spanning family of cycle-space elements: exchange-injection argument, no dimension theory), its weight is the same for all variants and tie-breakings, and the accumulated return value is the emitted weight. Trace validation per run as in C01 plus an independent Horton-greedy optimum in python. The sorted-weights sentence is _partial (stated, not proved; compared per run).",
          "Lean 4 proof (exchange argument against arbitrary bases) + trace validation + independent optimum", "§5 C02"),
+ "C13": ("proof", "Lean 4 theorems over the literal model of greedy_fvs (exists/degree arrays, LIFO forRemoval with double pushes, clean-up loops) for every simple graph and EVERY pop order of the heap: output are distinct vertices, degree counters stay accurate (no size_t underflow), the graph minus the output is acyclic (rank argument over removal times), a forest yields the empty output (min-degree-2 subgraphs contain a cycle). The C++ output is replayed as the heap's pop sequence on the model (must reproduce it exactly and leave nothing alive) and judged by an independent union-find oracle.",
+         "Lean 4 proof (loop invariants with fuel bound, rank_acyclic) + replay correspondence", "§5 C13"),
  "C16": ("proof", "Lean 4 theorems over the literal model of spanning_forest/ForestIndex for every simple graph and every iteration order of the unordered_set: forest edges acyclic and spanning (every off-forest edge closes a cycle with forest edges), n-c of them, index a bijection with inverse lookups, off-forest edges numbered first, dimension m-n+c without underflow, and the reindexed graph lies in the exact domain of the de Pina theory. Literal equality with the C++ (forest emission order, index, reverse, is_on_forest, dimension, components) using the observed unordered_set order; independent union-find oracle.",
          "Lean 4 proof (BFS invariants, algebraic connectivity) + literal correspondence", "§5 C16"),
  "C18": ("proof", "Lean 4 theorems over the literal model of ext_gcd (Bezout + gcd for all integer pairs), get_mult_inverse, is_prime (iff Nat.Prime for every p>=2, for any admissible square-root bound) and SpVecFP (canonical form for every history, add/scale/dot refine arithmetic mod p, negative scalars included); model tied to fp.hpp/spvecfp.hpp by exhaustive-small and random correspondence for long, int and cpp_int.",
